@@ -19,9 +19,80 @@ use std::collections::BTreeSet;
 
 pub struct C09;
 
+/// The same witness with every signature replaced by one of the largest size the library's
+/// documented conventions allow for (72 bytes ECDSA incl. sighash byte -- "73 including the push opcode" --, 65 bytes Schnorr with an
+/// explicit sighash byte).  The library chooses satisfactions by assumed, not actual, sizes, so
+/// it would return the same structure for such signatures; sizes and weights are bounded on it.
+fn pad_item(i: &[u8], ecdsa: &BTreeSet<Vec<u8>>, schnorr: &BTreeSet<Vec<u8>>) -> Vec<u8> {
+    if ecdsa.contains(i) {
+        let mut v = i.to_vec();
+        v.resize(72.max(v.len()), 0x01);
+        v
+    } else if schnorr.contains(i) {
+        let mut v = i.to_vec();
+        v.resize(65.max(v.len()), 0x01);
+        v
+    } else {
+        i.to_vec()
+    }
+}
+
 struct Measured {
     /// highest measured/bound ratio over the dimensions (percent)
     tightness: usize,
+}
+
+/// Static size figures of every sub-expression against the exact worst case of the canonical
+/// (dis)satisfactions listed in the specification's table (`mirror::satsize`).
+fn check_static<C: ScriptContext>(ms: &Miniscript<DK, C>, ctx: crate::mirror::spec::Ctx) -> Result<usize, Failure> {
+    use crate::mirror::satsize;
+    let mut n = 0usize;
+    for sub in ms.iter() {
+        let node = crate::mirror::ast::from_lib(sub);
+        let sd = match satsize::sizes(&node, ctx) {
+            Some(x) => x,
+            None => continue,
+        };
+        n += 1;
+        for (which, mine, lib) in [("sat", sd.sat, sub.ext.sat_data), ("dissat", sd.dis, sub.ext.dissat_data)] {
+            let mine = match mine {
+                Some(m) => m,
+                None => continue,
+            };
+            let lib = match lib {
+                Some(l) => l,
+                None => {
+                    // `d:`/`j:` children etc.: the library may know better that no witness exists;
+                    // only a *typed-dissatisfiable* / satisfiable node must have figures
+                    if which == "dissat" && !sub.ty.corr.dissatisfiable {
+                        continue;
+                    }
+                    if which == "sat" {
+                        continue;
+                    }
+                    return fail(&format!("static-{}-missing/{}", which, node.frag_name()), format!("{} is dissatisfiable but has no static dissatisfaction data", sub));
+                }
+            };
+            for (dim, a, b2) in [
+                ("witness-bytes", mine.wit, lib.max_witness_stack_size),
+                ("witness-elements", mine.elems, lib.max_witness_stack_count),
+                ("scriptsig-bytes", mine.ssig, lib.max_script_sig_size),
+            ] {
+                // scriptSig figures matter before segwit, witness byte figures from segwit on
+                let pre_segwit = matches!(ctx, crate::mirror::spec::Ctx::Bare | crate::mirror::spec::Ctx::Legacy);
+                if (dim == "scriptsig-bytes" && !pre_segwit) || (dim == "witness-bytes" && pre_segwit) {
+                    continue;
+                }
+                if a > b2 {
+                    return fail(
+                        &format!("static-{}/{}/{}", which, dim, node.frag_name()),
+                        format!("a canonical {}isfaction of {} has {} = {}, the library's bound is {}", if which == "sat" { "sat" } else { "dissat" }, sub, dim, a, b2),
+                    );
+                }
+            }
+        }
+    }
+    Ok(n)
 }
 
 /// Compare the figures of one miniscript with a satisfaction of it.
@@ -225,16 +296,48 @@ fn stress_desc(src: &mut Src) -> (MDesc, &'static str) {
 impl Check for C09 {
     fn id(&self) -> &'static str { "C09" }
     fn rule(&self) -> String {
-        "lane `measure`: random descriptors of every output type (sane and consensus-only scripts, compressed/uncompressed/x-only/xpub keys) x random worlds x {non-malleable, malleable}; lane `stress`: scripts built near each limit (thresholds with 10-84 children, combinations of 10-20-key multisigs, multi_a with 20-70 keys, or_i / pk_h / and_b chains of 20-70 links, threshold/hash mixes, tap leaves up to 30 levels deep) x full and partial worlds. Every satisfaction the library produces is put into a real transaction with real signatures and executed by the reference interpreter with a trace; checked: script_size()==encoding length; witness elements+1 <= max_satisfaction_witness_elements(); witness/scriptSig bytes <= max_satisfaction_size() (its stated conventions); txin weight increase (rust-bitcoin segwit_weight/legacy_weight) <= max_weight_to_satisfy(); consensus-counted non-push opcodes <= static_ops+max_exec_op_count; max stack+altstack <= max_witness_stack_count+max_exec_stack_count; and whenever the library accepted the script (default rules resp. consensus rules) the execution passes with standardness resp. consensus limits enforced (201 ops, 1000 stack, 520/80-byte items, 100 items, 3600/10000/520-byte scripts, 1650-byte scriptSig). Non-trivial = a measured value >= 80% of its static bound, or a stress script; distinct by (descriptor, world, mode).".into()
+        "lane `measure`: random descriptors of every output type (sane and consensus-only scripts, compressed/uncompressed/x-only/xpub keys) x random worlds x {non-malleable, malleable}; lane `static`: random miniscripts (4 contexts, sane and consensus-only): for EVERY sub-expression the library's static sat/dissat figures (witness bytes, witness elements, scriptSig bytes) must be >= the exact worst case over the canonical (dis)satisfactions of the specification's table, computed by an own recursion (thresh by exact DP over which k children are satisfied); lane `stress`: scripts built near each limit (thresholds with 10-84 children, combinations of 10-20-key multisigs, multi_a with 20-70 keys, or_i / pk_h / and_b chains of 20-70 links, threshold/hash mixes, tap leaves up to 30 levels deep) x full and partial worlds. Every satisfaction the library produces is put into a real transaction with real signatures and executed by the reference interpreter with a trace; checked: script_size()==encoding length; witness elements+1 <= max_satisfaction_witness_elements(); witness/scriptSig bytes <= max_satisfaction_size() (its stated conventions); txin weight increase (rust-bitcoin segwit_weight/legacy_weight) <= max_weight_to_satisfy(); consensus-counted non-push opcodes <= static_ops+max_exec_op_count; max stack+altstack <= max_witness_stack_count+max_exec_stack_count; and whenever the library accepted the script (default rules resp. consensus rules) the execution passes with standardness resp. consensus limits enforced (201 ops, 1000 stack, 520/80-byte items, 100 items, 3600/10000/520-byte scripts, 1650-byte scriptSig). Non-trivial = a measured value >= 80% of its static bound, or a stress script; distinct by (descriptor, world, mode).".into()
     }
-    fn assumptions(&self) -> Vec<String> { vec!["real ECDSA signatures are 71-72 bytes + sighash, Schnorr 64: the documented 73/66-byte assumptions are upper bounds".into()] }
+    fn assumptions(&self) -> Vec<String> { vec!["sizes and weights are measured on the executed witness with every signature stretched to the documented worst case (72-byte ECDSA element = 73 with its push, 65-byte Schnorr): the library ranks alternatives by assumed sizes, so the structure is the one it would return for such signatures".into()] }
     fn lanes(&self, tier: Tier) -> Vec<(&'static str, usize, usize)> {
         match tier {
-            Tier::Quick => vec![("measure", 10_000, 400), ("stress", 1_500, 200)],
-            Tier::Thorough => vec![("measure", 800_000, 500), ("stress", 60_000, 200)],
+            Tier::Quick => vec![("measure", 10_000, 400), ("stress", 1_500, 200), ("static", 60_000, 300)],
+            Tier::Thorough => vec![("measure", 800_000, 500), ("stress", 60_000, 200), ("static", 5_000_000, 400)],
         }
     }
     fn run_case(&self, lane: &str, src: &mut Src, rep: &mut Report) -> Result<(), Failure> {
+        if lane == "static" {
+            use crate::mirror::spec::Ctx;
+            let ctx = *src.pick(&[Ctx::Segwitv0, Ctx::Tap, Ctx::Legacy, Ctx::Bare]);
+            let size = src.range(1, 12);
+            let mut cfg = if src.bool() { Cfg::new(ctx, size) } else { Cfg::sane(ctx, size) };
+            cfg.allow_uncompressed = true;
+            cfg.or_boost = *src.pick(&[1, 1, 3]);
+            let node = gen::gen_ms(src, &cfg);
+            rep.desc = format!("{:?} {}", ctx, crate::mirror::ast::print(&node, true));
+            macro_rules! go {
+                ($c:ty) => {{
+                    match glue::ms_from_node::<$c>(&node, Level::Insane, true) {
+                        Ok(ms) => check_static(&ms, ctx)?,
+                        Err(_) => {
+                            rep.class("rejected-by-library");
+                            0
+                        }
+                    }
+                }};
+            }
+            let n = match ctx {
+                Ctx::Bare => go!(miniscript::BareCtx),
+                Ctx::Legacy => go!(miniscript::Legacy),
+                Ctx::Segwitv0 => go!(miniscript::Segwitv0),
+                Ctx::Tap => go!(miniscript::Tap),
+            };
+            rep.evals = n.max(1) as u64;
+            if n >= 3 {
+                rep.nontrivial_by(&rep.desc.clone());
+            }
+            return Ok(());
+        }
         let stress = lane == "stress";
         let (d, sname, insane) = if stress {
             let (d, n) = stress_desc(src);
@@ -343,10 +446,34 @@ impl Check for C09 {
             }
         };
         // weight bound
+        let sig_e: BTreeSet<Vec<u8>> = sat.ecdsa.values().map(|s| s.to_vec()).collect();
+        let mut sig_s: BTreeSet<Vec<u8>> = sat.tap_leaf.values().map(|s| s.to_vec()).collect();
+        if let Some(k) = &sat.tap_key {
+            sig_s.insert(k.to_vec());
+        }
+        let wit_p: Vec<Vec<u8>> = wit.iter().map(|i| pad_item(i, &sig_e, &sig_s)).collect();
+        let ss_p = {
+            let mut bld = bitcoin::script::Builder::new();
+            let mut ok = true;
+            for ins in ss.instructions() {
+                match ins {
+                    Ok(bitcoin::script::Instruction::PushBytes(pb)) => {
+                        let v = pad_item(pb.as_bytes(), &sig_e, &sig_s);
+                        match bitcoin::script::PushBytesBuf::try_from(v) {
+                            Ok(pbb) => bld = bld.push_slice(pbb),
+                            Err(_) => ok = false,
+                        }
+                    }
+                    Ok(bitcoin::script::Instruction::Op(op)) => bld = bld.push_opcode(op),
+                    Err(_) => ok = false,
+                }
+            }
+            if ok { bld.into_script() } else { ss.clone() }
+        };
         let unsat = TxIn::default();
         let mut satin = TxIn::default();
-        satin.script_sig = ss.clone();
-        satin.witness = Witness::from_slice(&wit);
+        satin.script_sig = ss_p.clone();
+        satin.witness = Witness::from_slice(&wit_p);
         let segwit = !matches!(d, MDesc::Bare(_) | MDesc::Pkh(_) | MDesc::Sh(_));
         let real_w = if segwit { satin.segwit_weight().to_wu() - unsat.segwit_weight().to_wu() } else { satin.legacy_weight().to_wu() - unsat.legacy_weight().to_wu() };
         let mut tight = 0usize;
@@ -365,6 +492,7 @@ impl Check for C09 {
         let us = oracle::units(&d).map_err(|e| Failure { sig: "mirror-encode".into(), msg: e })?;
         if !matches!(d, MDesc::Pkh(_) | MDesc::Wpkh(_) | MDesc::ShWpkh(_)) {
             let (path, items) = oracle::extract_stack(&d, &us, &wit, ss.as_bytes()).map_err(|e| Failure { sig: "malformed-satisfaction".into(), msg: e })?;
+            let items: Vec<Vec<u8>> = items.iter().map(|i| pad_item(i, &sig_e, &sig_s)).collect();
             let m = check_desc(&d, &lib, &items, &path, &tr, d.kind())?;
             tight = tight.max(m.tightness);
         }
